@@ -191,7 +191,8 @@ def run_c11(ctx):
     for i, st in enumerate(states):
         case, comp = drv_ctor.run_case(st, i)
         cases.append(case)
-        if comp is None or (i % probe_every):
+        signed = any(f in ("neg", "negsmall", "list_neg", "t_negentry", "t1_negentry", "t1_neg", "t2_neg", "t2_negaxis") for f in st["a"].values())
+        if comp is None or ((i % probe_every) and not (signed and i % 3 == 0)):
             continue
         n_probe += 1
         for vs in ((12.0,) if ctx.quick else (12.0, -9.0)):
@@ -202,7 +203,7 @@ def run_c11(ctx):
             sc = drv_solve.solve_case(s, 10 ** 6 + len(solves))
             sc["ctor_case"] = i
             solves.append(sc)
-            if any(f in ("neg", "negsmall", "list_neg") for f in st["a"].values()) and sc["outcome"] == "ok":
+            if signed and sc["outcome"] == "ok":
                 try:
                     mag = getattr(C, st["kind"])("X", **drv_ctor.magnitudes(case["kw"]))
                     s2 = drv_ctor.probe_system(mag, st["kind"], vs)
@@ -262,6 +263,15 @@ def _c10_probe(st, target, sign, rng):
     if I <= 1e-4 or V <= 1.2:
         return None
     V = sign * V
+    # the sign of tabulated coordinates is ignored and the vi rows may come in any order (the table is a scatter)
+    form = rng.choice(["plain", "plain", "negaxis", "descending"]) if len(ys) > 1 else "plain"
+    if form == "negaxis":
+        tab["vi"] = [-v for v in tab["vi"]]
+    elif form == "descending":
+        tab["vi"] = tab["vi"][::-1]
+        tab[key] = tab[key][::-1]
+    # a mux is also probed through its second input (the first one dead)
+    second = kind == "PMux" and rng.random() < 0.5
 
     def make(p):
         if kind == "Converter":
@@ -281,8 +291,13 @@ def _c10_probe(st, target, sign, rng):
     def system(p):
         with warnings.catch_warnings():
             warnings.simplefilter("ignore")
-            s = System("probe", C.Source("S", vo=V))
-            s.add_comp("S", comp=make(p))
+            if second:
+                s = System("probe", C.Source("S0", vo=0.0))
+                s.add_source(C.Source("S", vo=V))
+                s.add_comp(["S0", "S"], comp=make(p))
+            else:
+                s = System("probe", C.Source("S", vo=V))
+                s.add_comp("S", comp=make(p))
             s.add_comp("X", comp=C.ILoad("L", ii=I))
         return s
     return system(tab), (system(const) if len({v for r in f for v in r}) == 1 else None)
